@@ -100,3 +100,40 @@ def verified_view(img, info, part):
             data[lo:hi] = bytes([FILL]) * (hi - lo)
             invalid.append(b)
     return bytes(data), invalid, res
+
+
+def heal_neighbour_case(ctx, case, rng, img, info, payloads, geom):
+    # healing through a neighbour: a damaged HASH block makes every block beneath it read as filler; rewriting one level-4 block beneath
+    # it re-hashes the chain above, so the file authenticates again whatever its (unchanged) hash entries cover: in the same session
+    # every block must then read as the file's own hash chain says (independent verifier), not as it was cached before the write
+    pi = rng.randrange(len(info['partitions']))
+    ip = info['partitions'][pi]
+    bss = ip['block_sizes']
+    b = rng.randrange(ip['level_blocks'][3])
+    lv = rng.choice([3, 2, 1])
+    anc = b
+    for k in range(3, lv - 1, -1):
+        anc = (anc * 32) // bss[k - 1]
+    segs = [sg for sg in ip['hash_segments'][lv][anc] if sg[1]]
+    if segs:
+        off, ln = rng.choice(segs)
+        bad = bytearray(img)
+        bad[off + rng.randrange(ln)] ^= 0x04
+        c4, bio4 = open_container(bytes(bad), geom['kind'])
+        r4 = lv4_reader(c4, pi)
+        before = r4.read()
+        lo = b * bss[3]
+        n = min(bss[3], len(payloads[pi]) - lo)
+        r4.seek(lo)
+        r4.write(pyenv.rbytes(rng, n))
+        r4.seek(0)
+        after = r4.read()
+        want, invalid4, res4 = verified_view(bio4.getvalue(), info, pi)
+        ncase = dict(case, part=pi, block=b, damaged_hash_level=lv, damaged_hash_block=anc)
+        if want is not None and after != bytes(want):
+            k = next((i for i, (x, y) in enumerate(zip(after, bytes(want))) if x != y), min(len(after), len(want)))
+            ctx.diff('oracle', 'heal:neighbours', ncase, bytes(want)[k:k + 8].hex(), after[k:k + 8].hex(),
+                     f'after a write re-hashed a damaged level-{lv} hash block, level-4 block {k // bss[3]} does not read as the file\'s hash chain says '
+                     f'(still the verdict cached before the write?)')
+        c4.close()
+        ctx.stat('heal_neighbour_histories')
